@@ -623,6 +623,12 @@ impl Message<PartitionSyncResponse> for PartitionReplicatorActor {
 
                     let tx_id = *commit.transaction_id();
                     let confirmation_count = commit.confirmation_count();
+                    // The commit must land at the sequence it has on the coordinator. Appending
+                    // it wherever this replica's log happens to end would, when something else
+                    // was written there in the meantime, store it at another sequence - with
+                    // the coordinator's quorum confirmation count.
+                    let expected_partition_sequence =
+                        ExpectedVersion::from_next_version(first.partition_sequence);
                     let tx = Transaction::new(
                         first.partition_key,
                         first.partition_id,
@@ -643,6 +649,7 @@ impl Message<PartitionSyncResponse> for PartitionReplicatorActor {
                     )
                     .unwrap()
                     .with_transaction_id(tx_id)
+                    .expected_partition_sequence(expected_partition_sequence)
                     .with_confirmation_count(confirmation_count);
                     match self.write_transaction(tx).await {
                         Ok(append) => {
